@@ -78,7 +78,7 @@ func (e *mvccEngine) teardown() {
 				s.Close()
 			}
 		}
-		e.db.Close()
+		boundedClose(e.db.Close)
 	}
 	nitro.VerifHook = nil
 	if e.alloc != nil {
